@@ -678,10 +678,17 @@ def comprehension(E, n):
         raise Unsupported("nested comprehension")
     g = n.generators[0]
     it = E.eval(g.iter)
+    if isinstance(it, RefV) and E.reg._hook(it.cls, "iter") is not None:
+        it = E.reg._hook(it.cls, "iter")(E, it)     # iteration of a declared class: see Interp.x_For
     seq = iter_values(E, it)
     if seq is None:
         if not g.ifs and isinstance(it, (SymRange, SymRangeStep)) and isinstance(g.target, ast.Name) and not E.spec:
             return _map_comprehension(E, n, g, it)
+        if not g.ifs and isinstance(it, (ListV, AbstractIter)) and not E.spec and \
+                not (isinstance(it, ListV) and it.et is None) and \
+                not (isinstance(n.elt, ast.Name) and isinstance(g.target, ast.Name) and n.elt.id == g.target.id):
+            # (used to be Unsupported) [elt(x) for x in L] over a list of symbolic length, elt not the bare target
+            return _map_comprehension_seq(E, n, g, it)
         return _filter_comprehension(E, n, g, it)
     out = []
     saved = dict(E.frame.env)
@@ -1087,6 +1094,7 @@ def list_method(E, lv, name, args, kwargs):
         x = args[0]
         if lv.et is None:
             lv.et = type_of_value(x)
+        x = E.coerce(lv.et, x)
         terms = pack(lv.et, x)
         E.set_larrs(lv, [z3.Lambda([KLAM], z3.If(KLAM == 0, t, z3.Select(a, KLAM - 1)))
                          for a, t in zip(E.larrs(lv), terms)])
@@ -1194,6 +1202,13 @@ def dict_method(E, dv, name, args, kwargs):
         if len(args) > 1:
             return args[1]
         raise PyRaise(ExcV(KeyError, (args[0],)))
+    if name == "setdefault":
+        has = E.dhas(dv, args[0])
+        if E.branch(has):
+            return E.dget(dv, args[0])
+        dflt = args[1] if len(args) > 1 else None
+        E.dset(dv, args[0], dflt)
+        return dflt
     if name == "clear":
         ks = E.ksort(dv.kt)
         E.set_ddom(dv, z3.K(ks, z3.BoolVal(False)))
